@@ -146,6 +146,22 @@ def subworkflow_cases(check):
         add({"workflow.yaml": main.replace("kind: foreach", "kind: " + kind) % "a.yaml", "a.yaml": LEAF}, "kind: " + kind, "kind:" + kind, None)
     for wf in ("[1]", "{a: b}", "12", "null", '""', "!expr \"$.input.tag\""):
         add({"workflow.yaml": main.replace("workflow: %s", "workflow: " + wf.replace("%", "%%")), "a.yaml": LEAF}, "workflow: " + wf, "workflowfield:" + wf, "error")
+    # wide trees: several loop steps of one file naming different sub-workflows, some of which have loops of their own;
+    # every file of the tree must be found whatever order the loop steps are visited in (repeated: the order varies)
+    def wide(names):
+        head = main.split("steps:")[0]
+        loops = "".join('  l%d: {kind: foreach, workflow: %s, items: [{tag: !expr "$.input.tag"}]}\n' % (i, n) for i, n in enumerate(names))
+        outs = ", ".join('d%d: !expr "$.steps.l%d.outputs.success.data"' % (i, i) for i in range(len(names)))
+        return head + "steps:\n" + loops + "outputs:\n  success: {" + outs + "}\n"
+    reps = check.pick(10, 40)
+    for rep in range(reps):
+        add({"workflow.yaml": wide(["a.yaml", "b.yaml"]), "a.yaml": SUB_TMPL % "leaf.yaml", "b.yaml": LEAF, "leaf.yaml": LEAF}, "nested and plain sibling sub-workflows (rep %d)" % rep, "wide:nested+plain", "ok")
+        add({"workflow.yaml": wide(["a.yaml", "b.yaml", "c.yaml", "d.yaml"]), "a.yaml": SUB_TMPL % "la.yaml", "b.yaml": LEAF, "c.yaml": SUB_TMPL % "lc.yaml", "d.yaml": LEAF, "la.yaml": LEAF, "lc.yaml": LEAF},
+            "two nested and two plain sibling sub-workflows (rep %d)" % rep, "wide:2nested+2plain", "ok")
+        add({"workflow.yaml": main % "top.yaml", "top.yaml": wide(["a.yaml", "b.yaml"]).replace("root: RootObject", "root: Item").replace("RootObject: {id: RootObject", "Item: {id: Item"),
+             "a.yaml": SUB_TMPL % "leaf.yaml", "b.yaml": LEAF, "leaf.yaml": LEAF}, "wide tree below a sub-workflow (rep %d)" % rep, "wide:below-sub", "ok")
+        add({"workflow.yaml": wide(["a.yaml", "b.yaml", "a.yaml"]), "a.yaml": SUB_TMPL % "leaf.yaml", "b.yaml": SUB_TMPL % "leaf.yaml", "leaf.yaml": LEAF}, "shared leaf, repeated file (rep %d)" % rep, "wide:shared-leaf", "ok")
+        add({"workflow.yaml": wide(["a.yaml", "b.yaml"]), "a.yaml": SUB_TMPL % "missing.yaml", "b.yaml": LEAF}, "missing leaf below a nested sibling (rep %d)" % rep, "missing:wide", "error")
     add({"workflow.yaml": ""}, "empty main file", "empty-main", "error")
     add({"other.yaml": LEAF}, "no workflow.yaml", "no-main", "error")
     return out
@@ -243,7 +259,7 @@ def run(check):
         check.nontrivial("%s|%s" % (m["class"], verdict))
         if m.get("expect") and m["expect"] != verdict:
             check.report("subworkflow@%s->%s" % (m["class"], verdict), "%s: expected %s, got %s (%s)" % (m["what"], m["expect"], verdict, (err or "")[:200]), {"files": m["files"], "engine": m.get("engine")})
-        if m["class"] in ("missing", "missing:nested") and err and "missing" not in err and "no such file" not in err and "not found" not in err:
+        if m["class"] in ("missing", "missing:nested", "missing:wide") and err and "missing" not in err and "no such file" not in err and "not found" not in err:
             check.report("subworkflow@missing-not-reported", "%s: error does not report the missing file: %s" % (m["what"], err[:200]), {"files": m["files"]})
         if len(check.samples) < 5 and i % 97 == 0:
             check.sample({"what": m["what"], "verdict": verdict, "error": (err or "")[:160]})
